@@ -9,6 +9,8 @@
 //	S <fnline> <order>                                           a drain point (call of a range-over-func whose body defers)
 //	X <ownerline> <line> <clo> <nargs>                           a defer inside a range-over-func body (explicit defer stack)
 //	K <fnline>                                                   the function evaluates ssa:deferstack()
+//	I <fnline>                                                   a return of the function gets an IMPLICIT RunDefers from
+//	                                                             cl/compile.go returnNeedsImplicitRunDefers (go/ssa emitted none)
 //
 // fnline = source line of the enclosing function (declaration or func literal), order = index of the replay
 // statement in compile order within that function, line = source line of the defer statement,
@@ -165,6 +167,35 @@ func blockFacts(fn *ssa.Function, b *ssa.BasicBlock) (dom, cyc int) {
 	return
 }
 
+// implicitRunDefers mirrors cl/compile.go returnNeedsImplicitRunDefers: a return outside the recover block that is not
+// preceded by a RunDefers instruction, in a non-synthetic function with an explicit-stack defer in a nested function.
+func implicitRunDefers(fn *ssa.Function) bool {
+	if fn.Synthetic != "" {
+		return false
+	}
+	nested := false
+	for _, c := range fn.AnonFuncs {
+		if hasStackDefer(c) {
+			nested = true
+		}
+	}
+	if !nested {
+		return false
+	}
+	// cl/compile.go adds a RunDefers in front of every return that is not directly preceded by one. Where go/ssa emitted its
+	// own RunDefers (function with an own defer statement: store results, rundefers, reload, return) the added one finds
+	// nothing left to run and the results are the reloaded ones. Where go/ssa emitted none at all (the only defers are in
+	// range-over-func bodies), the added one runs AFTER the operands of Return were evaluated: that is what is reported.
+	for _, b := range fn.Blocks {
+		for _, in := range b.Instrs {
+			if _, ok := in.(*ssa.RunDefers); ok {
+				return false
+			}
+		}
+	}
+	return true
+}
+
 func calleeIsClosure(d *ssa.Defer) int {
 	if _, static := d.Call.Value.(*ssa.Function); static && d.Call.Method == nil {
 		return 0
@@ -191,6 +222,9 @@ func report(w *bufio.Writer, fset *token.FileSet, fn *ssa.Function) {
 				}
 			}
 		}
+	}
+	if implicitRunDefers(fn) {
+		fmt.Fprintf(w, "I %d\n", fset.Position(fn.Pos()).Line)
 	}
 	if !has {
 		return
